@@ -17,6 +17,7 @@
 //	                                   parsed = what dataParse returned when the case was generated
 //	                                   (the model takes the parse result as an input: ajson/xmlquery are not modelled)
 //	threshold <n>                      (model side only: compared with the regenerated expression by a theorem)
+//	cq … (conc.go), subm … / grp … (group.go), path … (path.go): round 4
 package c07
 
 import (
@@ -49,7 +50,10 @@ func init() {
 		ID: "C07",
 		Rule: "cases: sys/sysraw (lastRand 0, <2^64, >2^64, every count 0..32 of leading zero bytes, 2^256-1, >2^256), user, submitter (n 1..21 and 3..7 for every residue), pad (lengths 0..40 x sizes), " +
 			"strip (real recoverSign on a 1-of-1 group), query (grammar-generated JSON/XML documents and JSONPath/XPath selectors through a local HTTP server, plus a malformed stream); " +
-			"each evaluated 8x sequentially and by 8 goroutines sharing the inputs; non-trivial = anything but a 32-byte lastRand without leading zero / an empty selector; distinct = distinct case line",
+			"each evaluated 8x sequentially and by 8 goroutines sharing the inputs; " +
+			"cq (round 4): XPath selectors from the engine's feature set (axes, positional/comparison predicates, every string function with node-set and literal arguments, count/sum/position/last, not/and/or, unions, attributes, text()) and JSONPath (filters, slices, recursive descent, wildcards, scripts) over generated feeds of 3..400 items: one sequential reference, then G=2..16 goroutines released on a barrier x N=4..16 evaluations through dataParse and genQueryResult (same selector / two selectors on one document / one selector on two documents / JSON and XML together), every result compared with the reference after all finished; " +
+			"subm (explicit unsorted member lists with duplicates, 1..300 members), grp (LogGrouping / dissolve histories through the real handleGrouping and pdkg group table, then choseSubmitter), path (content stage -> genSign -> recoverSign -> reportQueryResult for the three kinds); " +
+			"non-trivial = anything but a 32-byte lastRand without leading zero / an empty selector; distinct = distinct case line",
 		Gen:  gen,
 		Exec: exec,
 	})
@@ -512,6 +516,8 @@ func exec(line string) (res h.Result) {
 		return execSubm(w)
 	case "grp":
 		return execGrp(w)
+	case "path":
+		return execPath(w)
 	case "threshold":
 		n := h.Atoi(w[1])
 		res.Impl = strconv.Itoa(n/2 + 1)
@@ -709,6 +715,8 @@ func gen(tier string, rng *h.Rng, emit func(string)) {
 	genCQ(tier, rng, emit)
 	// round 4: explicit member lists and the group table (group.go)
 	genGroup(tier, rng, emit)
+	// round 4: content stage -> genSign -> recoverSign -> reportQueryResult (path.go)
+	genPath(tier, rng, emit)
 }
 
 // ---- grammars
